@@ -22,6 +22,7 @@ pub mod rtcancel;
 pub mod rtstop;
 pub mod rtsock;
 pub mod rtconn;
+pub mod rtprio;
 pub mod hookproc;
 pub mod sched;
 pub mod sel;
@@ -45,6 +46,7 @@ pub static ALL: &[Comp] = &[
     Comp { name: "rtstop", gen: rtstop::gen, exec: rtstop::exec, isolate_ms: 15000 },
     Comp { name: "rtsock", gen: rtsock::gen, exec: rtsock::exec, isolate_ms: 30000 },
     Comp { name: "rtconn", gen: rtconn::gen, exec: rtconn::exec, isolate_ms: 15000 },
+    Comp { name: "rtprio", gen: rtprio::gen, exec: rtprio::exec, isolate_ms: 15000 },
     Comp { name: "hookproc", gen: hookproc::gen, exec: hookproc::exec, isolate_ms: 12000 },
     Comp { name: "co", gen: co::gen, exec: co::exec, isolate_ms: 5000 },
     Comp { name: "local", gen: local::gen, exec: local::exec, isolate_ms: 5000 },
